@@ -192,13 +192,17 @@ Definition getitem (o k : pv) : res pv :=
    [strlib]: what the string / shell library functions compute; each tie instantiates it with the functions of the
    model it is tied to (Model/Naming.strip, Model/Shell.strip/lower/cmd_parseline).
    [msg]: text building (f-strings, ', '.join(sorted(..))) is an uninterpreted oracle: no theorem depends on a
-   message's text beyond the leading constant that selects the exception kind. *)
+   message's text beyond the leading constant that selects the exception kind.  The same oracle stands for the
+   methods of objects other than the receiver (cursor.execute, compiler.compile in the Connection wrappers). *)
 Record strlib := {
   sl_strip : list Z -> list Z;
   sl_lower : list Z -> list Z;
   sl_parseline : list Z -> option (list Z * list Z * list Z);   (* cmd.Cmd.parseline *)
   sl_getattr : list Z -> option nat;                            (* getattr(self, name): the bound method, if any *)
 }.
+
+Definition opaque_method (msg : string -> list pv -> pv) (name : string) (args : list pv) : res pv :=
+  match msg name args with PV (VErr k) => Exc k | v => Ok v end.
 
 Definition prim_api (L : strlib) (msg : string -> list pv -> pv) (name : string) (args : list pv) : res pv :=
   match strip_prefix "attr:" name with
@@ -266,5 +270,8 @@ Definition prim_api (L : strlib) (msg : string -> list pv -> pv) (name : string)
     end
   else if String.eqb name "fstring" || String.eqb name "call:join" || String.eqb name "builtins.sorted" then
     Ok (msg name args)
+  else if String.eqb name "call:execute" || String.eqb name "call:compile" then
+    (* a method of ANOTHER object (a new Cursor, a new Compiler): uninterpreted; an error value is raised *)
+    opaque_method msg name args
   else Stuck
   end end.
